@@ -30,6 +30,7 @@
 #include <stdio.h>
 #include <ctype.h>
 #include <iostream>
+#include <vector>
 
 #include "soplex/spxdefines.h"
 #include "soplex/spxout.h"
@@ -169,7 +170,6 @@ static Rational LPFreadValue(char*& pos, SPxOut* spxout, const int lineno = -1)
 {
    assert(LPFisValue(pos));
 
-   char        tmp[SOPLEX_LPF_MAX_LINE_LEN];
    const char* s = pos;
    char*       t;
    Rational        value = 1;
@@ -256,14 +256,17 @@ static Rational LPFreadValue(char*& pos, SPxOut* spxout, const int lineno = -1)
       value = (*pos == '-') ? -1 : 1;
    else
    {
-      for(t = tmp; pos != s; pos++)
+      // the token can be longer than any fixed-size buffer: the line buffer grows as needed
+      std::vector<char> tmp(size_t(s - pos) + 1);
+
+      for(t = tmp.data(); pos != s; pos++)
          *t++ = *pos;
 
       *t = '\0';
 
       try
       {
-         value = ratFromString(tmp);
+         value = ratFromString(tmp.data());
       }
       catch(const std::exception& e)
       {
@@ -298,7 +301,6 @@ static int LPFreadColName(char*& pos, NameSet* colnames, LPColSetBase<Rational>&
    assert(LPFisColName(pos));
    assert(colnames != nullptr);
 
-   char        name[SOPLEX_LPF_MAX_LINE_LEN];
    const char* s = pos;
    int         i;
    int         colidx;
@@ -306,6 +308,10 @@ static int LPFreadColName(char*& pos, NameSet* colnames, LPColSetBase<Rational>&
    // These are the characters that are not allowed in a column name.
    while((strchr("+-.<>= ", *s) == nullptr) && (*s != '\0'))
       s++;
+
+   // the name can be longer than any fixed-size buffer: the line buffer grows as needed
+   std::vector<char> namebuf(size_t(s - pos) + 1);
+   char* name = namebuf.data();
 
    for(i = 0; pos != s; i++, pos++)
       name[i] = *pos;
